@@ -1073,7 +1073,7 @@ fn main() {
         let per_run = args.get_u64("shapes", 3);
         (args.get_u64("cases", 2), per_run, (seed % ((shapes + per_run - 1) / per_run)) * per_run)
     } else {
-        (args.n(25_000, 1_000_000), args.n(shapes * 250, shapes * 8_000), 0)
+        (args.n(25_000, 600_000), args.n(shapes * 250, shapes * 5_000), 0)
     };
     par_cases(&mut r, &args, n_dyn, |i, r| dyn_case(r, seed, i));
     par_cases(&mut r, &args, n_static, |i, r| static_case(r, seed, static_from + i));
